@@ -9,7 +9,7 @@ THEOREMS = ["C05.c05_superfluous_exact", "C05.c05_done_exact", "C05.take_deplete
             "C05.c05_surplus_walker", "runWalker_acct",
             "TRB.bind", "take_tr", "decode_tr", "decodeCommand_tr", "decodeResponse_tr", "runWalker_tr",
             "C05.c05_truncated", "C05.c05_cut_beyond", "C05.c05_truncated_type", "C05.c05_truncated_command", "C05.c05_truncated_response",
-            "C05.c05_stream_truncated", "C05.c05_stream_walker", "decodeStream_srb", "decodeStream_fuel", "SRB.bind", "SRB.boundary"]
+            "C05.c05_stream_truncated", "C05.c05_stream_walker", "C05.c05_stream_silent_iff", "silent_walker_ok", "decodeStream_roots", "decodeStream_srb", "decodeStream_fuel", "SRB.bind", "SRB.boundary"]
 
 
 def cc_of(events_lines):
